@@ -689,11 +689,37 @@ class Boom(Exception):
     """the injected callback failure"""
 
 
+class BoomStop(StopIteration):
+    """injected failure of a type that iterator protocols treat as 'exhausted'"""
+
+
+class BoomKey(KeyError):
+    pass
+
+
+class BoomAttr(AttributeError):
+    pass
+
+
+class BoomZero(ZeroDivisionError):
+    pass
+
+
+class BoomValue(ValueError):
+    pass
+
+
+BOOMS = {'Exception': Boom, 'StopIteration': BoomStop, 'KeyError': BoomKey, 'AttributeError': BoomAttr,
+         'ZeroDivisionError': BoomZero, 'ValueError': BoomValue}
+BOOM_TYPES = tuple(BOOMS.values())
+
+
 class FaultPlan:
     """'the k-th callback invocation raises' with k symbolic: every tick forks on k == i."""
 
-    def __init__(self, env, name='crash_k', enabled=True):
+    def __init__(self, env, name='crash_k', enabled=True, exc='Exception'):
         self.env = env
+        self.exc = BOOMS[exc]
         self.enabled = enabled
         self.k = env.int(name) if enabled else None
         self.i = 0
@@ -711,7 +737,7 @@ class FaultPlan:
         hit = (self.k == i)
         if bool(hit):
             self.fired_at = (i, site)
-            raise Boom(f"injected failure at callback #{i} ({site})")
+            raise self.exc(f"injected failure at callback #{i} ({site})")
 
 
 # --------------------------------------------------------------------------------------------
